@@ -128,6 +128,10 @@ theorem rxJust_invariant :
   ⟨RxJust.init, fun s h => ⟨h.processRx, h.checkTimeoutsRx, h.of_txFrame (TxFrame.processTx s),
     fun doRx doTx => RxJust.stepInv.process s doRx doTx h⟩, RxJust.stopReceiving⟩
 
+/-- … and by every public method: it holds in every state reachable from the initial one. -/
+theorem rxJust_any_use (c : Cfg) (a : Addr) (ops : List Op) : RxJust (runOps (State.init c a) ops) :=
+  RxJust.runOps ops (RxJust.init c a)
+
 /-- **Per-frame justification.** One call of `_process_rx` (on ANY frame) puts at most one payload on
     the rx queue — the queue `recv()` pops — and logs exactly that delivery; if it delivers `p`, then
     `p` is justified by this frame in the sense of `JustifiedBy`. -/
@@ -544,6 +548,7 @@ end Isotp.C05
 #print axioms Isotp.C05.log_prepend
 #print axioms Isotp.C05.internal_kinds
 #print axioms Isotp.C05.rxJust_invariant
+#print axioms Isotp.C05.rxJust_any_use
 #print axioms Isotp.C05.delivery_justified
 #print axioms Isotp.C05.rxQueue_other_steps
 #print axioms Isotp.C05.buffer_step
